@@ -1274,6 +1274,188 @@ def run_faults(ctx):
     return ncases
 
 
+# ---------------------------------------------------------------------------------------------
+# load as a program over the file object (C06): OggX(fileobj) on FaultFile vs `ogginject op=loadm`
+
+def _same_calls(real, model):
+    """the same operations in the same order, the same sizes of reads (the real log has `r-1` for `read()`)"""
+    if len(real) != len(model):
+        return False
+    for a, b in zip(real, model):
+        if a[0] != b[0]:
+            return False
+        if a[0] == "r" and a != "r-1" and a != b:
+            return False
+        if a[0] == "s" and not a.startswith("s-") and a != b:
+            return False
+    return True
+
+
+def gen_load_file(rng, codec):
+    """small files for the load program: the well-formed multiplexed ones of `gen_fault_file`, the same cut short
+    somewhere, with a foreign stream behind the last page of ours (forces the slow way of find_last), and a few
+    with bytes damaged"""
+    data, pages, serial = gen_fault_file(rng, codec)
+    kind = rng.choice(["plain", "plain", "cut", "tail", "damaged"])
+    if kind == "cut":
+        data = data[:rng.randrange(0, len(data) + 1)]
+    elif kind == "tail":
+        extra = paginate(rng, [rbytes(rng, 9), rbytes(rng, 30)], serial + 11, maxsegs=255)
+        data += b"".join(render_page(q) for q in extra)
+    elif kind == "damaged" and data:
+        b = bytearray(data)
+        for _ in range(rng.choice([1, 2])):
+            b[rng.randrange(len(b))] = rng.randrange(256)
+        data = bytes(b)
+    return data, kind
+
+
+def run_load_faults(ctx):
+    """`OggVorbis(fileobj)` … `OggFLAC(fileobj)` on fault-injecting file objects (harness/fobj.py FaultFile: an IOError at
+    every call index, a short read with budgets 0 / 1 / n//2 at every read) against the FileM program `loadM` of
+    Model/Container/OggInjectLoadM.lean (`ogginject op=loadm … fail=<i>:io | short=<i>:<k>`): same outcome class, the same
+    file-object calls in the same order, what was loaded (serial, padding, preserved data, the page find_last returned);
+    and the statements of C06 on the real outcome: only MutagenError (ValueError from verify_fileobj's probe is the recorded
+    finding), file untouched, object not closed; a short read that silently changes what is loaded is recorded.
+    Returns the number of cases."""
+    from fobj import FaultFile, TraceFile
+    from mutagen import MutagenError
+    import mutagen.ogg
+    from vcheck import parse_fields
+    rng = ctx.rng
+    n = int(os.environ.get("VERIF_OGGLOAD_CASES", "0")) or ctx.budget(4, 25)
+    reqs = []
+    ncases = 0
+    found = {}
+    orig_find_last = mutagen.ogg.OggPage.find_last
+
+    def spy(fileobj, serial, finishing=False):
+        r = orig_find_last(fileobj, serial, finishing)
+        found["last"] = r
+        return r
+
+    def load(cls, f):
+        found.clear()
+        mutagen.ogg.OggPage.find_last = staticmethod(spy)
+        try:
+            k, r = timed(lambda: cls(f), 20)
+        finally:
+            mutagen.ogg.OggPage.find_last = staticmethod(orig_find_last)
+        if k == "hang":
+            return "hang", None
+        if k != "ok":
+            return classify(r), r
+        last = found.get("last")
+        desc = "serial=%d padding=%d paddata=%s last=%s" % (
+            r.info.serial, getattr(r.tags, "_padding", 0), hx(getattr(r.tags, "_pad_data", b"")),
+            "none" if last is None else "%d@%d" % (last.position, last.sequence))
+        return "ok " + desc, r
+
+    for codec in CODECS:
+        cls, _ = classes(codec)
+        for i in range(n):
+            data, kind = gen_load_file(rng, codec)
+            if len(data) > 6000:
+                continue
+            tf = TraceFile(data)
+            ref, _ = load(cls, tf)
+            if ref == "hang":
+                ctx.violation("oggload:%s:hang" % codec, "the constructor did not finish", dict(fmt=codec, data=hx(data))); continue
+            case = dict(fmt=codec, kind=kind, len=len(data), data=hx(data) if len(data) < 700 else "len=%d" % len(data))
+            base = "ogginject fmt=%s op=loadm data=%s" % (codec, hx(data))
+            reqs.append((base, ref, list(tf.log), data, dict(case, env="clean")))
+            ncases += 1
+            ctx.case(key=("oggload", codec, i, "clean"), nontrivial=True, modelled=True)
+            # ---- an IOError at every call index (one beyond the last: no fault is hit)
+            for j in range(len(tf.log) + 1):
+                ff = FaultFile(data, fail_at=j)
+                out, r = load(cls, ff)
+                cc = dict(case, env="fail", fault_at_call=j)
+                ncases += 1
+                ctx.case(key=("oggload", codec, i, "fail", j), nontrivial=True, modelled=True)
+                if out == "hang":
+                    ctx.violation("oggload:%s:hang" % codec, "did not finish", cc); continue
+                if not out.startswith("ok") and not isinstance(r, MutagenError):
+                    key = "escape:ValueError:_util.py:verify_fileobj" if (j == 0 and isinstance(r, ValueError)) else \
+                        "oggload:%s:io-fault-raises-%s" % (codec, type(r).__name__)
+                    ctx.violation(key, "an injected IOError surfaced as %s" % type(r).__name__, cc)
+                if ff.getvalue() != data:
+                    ctx.violation("oggload:%s:file-modified" % codec, "load changed the file", cc)
+                if ff.closed_called:
+                    ctx.violation("oggload:%s:closed" % codec, "load closed the caller's file object", cc)
+                ctx.hist["oggload:fail:%s" % out.split(" ")[0 if out.startswith("ok") else 1]] += 1
+                reqs.append((base + " fail=%d:io" % j, out, list(ff.log), data, cc))
+            # ---- a short read at every read, budgets 0, 1, n//2
+            for j, op in enumerate(tf.log):
+                if op[0] != "r":
+                    continue
+                want = int(op[1:])
+                if want < 0:
+                    want = len(data)
+                for k in sorted(set([0, 1, want // 2])):
+                    if k >= want and want >= 0 and op != "r-1":
+                        continue
+                    ff = FaultFile(data, short=(j, k))
+                    out, r = load(cls, ff)
+                    cc = dict(case, env="short", read_at_call=j, asked=op, budget=k)
+                    ncases += 1
+                    ctx.case(key=("oggload", codec, i, "short", j, k), nontrivial=True, modelled=True)
+                    if out == "hang":
+                        ctx.violation("oggload:%s:hang" % codec, "did not finish", cc); continue
+                    if not out.startswith("ok") and not isinstance(r, MutagenError):
+                        ctx.violation("oggload:%s:short-read-raises-%s" % (codec, type(r).__name__),
+                                      "a short read surfaced as %s" % type(r).__name__, cc)
+                    # C06 asks of a load under faults that it completes or raises MutagenError; that a short read in
+                    # find_last's slow loop is taken for the end of the stream (so the call completes with an earlier page as the
+                    # last one: a wrong length) is recorded as an observation, not a violation (Props/C06_OggInjectLoad.lean
+                    # states it exactly: ogg_find_last_swallows)
+                    if out.startswith("ok") and ref.startswith("ok") and out != ref:
+                        ctx.hist["oggload:short-read-taken-for-end-of-stream:%s" % codec] += 1
+                    if out.startswith("ok") and not ref.startswith("ok"):
+                        ctx.hist["oggload:short-read-makes-load-succeed:%s" % codec] += 1
+                    if ff.getvalue() != data:
+                        ctx.violation("oggload:%s:file-modified" % codec, "load changed the file", cc)
+                    if ff.closed_called:
+                        ctx.violation("oggload:%s:closed" % codec, "load closed the caller's file object", cc)
+                    ctx.hist["oggload:short:%s" % ("ok-same" if out == ref and out.startswith("ok") else "ok-different" if out.startswith("ok") else "err")] += 1
+                    reqs.append((base + " short=%d:%d" % (j, k), out, list(ff.log), data, cc))
+    answers = ask_model(ctx, [r[0] for r in reqs]) if reqs else None
+    if answers is None:
+        ctx.notes.append("ogginject_tie.run_load_faults: model driver unavailable, tie skipped")
+        return ncases
+    if any(a == "bad-op" for a in answers):
+        ctx.notes.append("ogginject_tie.run_load_faults: the driver does not know op=loadm yet; tie skipped")
+        return ncases
+    # the pure load of the model on the same bytes: what the program returns without faults
+    clean = [(r, a) for r, a in zip(reqs, answers) if r[4].get("env") == "clean"]
+    pures = ask_model(ctx, [r[0].replace("op=loadm", "op=loadpure") for r, _ in clean]) if clean else []
+    for (r, a), pa in zip(clean, pures):
+        st, fld = parse_fields(a)
+        pst, pfld = parse_fields(pa)
+        keys = ["serial", "comment", "padding", "paddata", "last"]
+        if st != pst or (st == "ok" and [fld.get(k) for k in keys] != [pfld.get(k) for k in keys]):
+            ctx.disagree("ogg load: program without faults vs pure load of the model", r[4], model=a[:200], impl=pa[:200])
+        ctx.traces_validated += 1
+    for (line, out, log, data, case), ans in zip(reqs, answers):
+        st, fld = parse_fields(ans)
+        ctx.traces_validated += 1
+        mlog = [] if fld.get("log", "-") == "-" else fld["log"].split(",")
+        if out.startswith("ok"):
+            want = "ok"
+            mine = "serial=%s padding=%s paddata=%s last=%s" % (fld.get("serial"), fld.get("padding"), fld.get("paddata"), fld.get("last"))
+            okres = (mine.replace("paddata=-", "paddata=") == out[3:].replace("paddata=-", "paddata="))
+        else:
+            want = "err:" + out.split(" ")[1]
+            okres = True
+        if st != want or not okres:
+            ctx.disagree("ogg load program: outcome", case, model=ans[:300], impl=out)
+        elif fld.get("data") != hx(data):
+            ctx.disagree("ogg load program: the model changes the file", case, model=ans[:200], impl="untouched")
+        elif not _same_calls(log, mlog):
+            ctx.disagree("ogg load program: file-object calls", case, model=",".join(mlog)[-400:], impl=",".join(log)[-400:])
+    return ncases
+
+
 if __name__ == "__main__":
     # stand-alone run: /venv/bin/python ogginject_tie.py [cases per codec] [seed]
     import sys, random, collections, json
@@ -1294,13 +1476,14 @@ if __name__ == "__main__":
             return self.driver.available
     c15 = len(sys.argv) > 1 and sys.argv[1] == "c15"          # ogginject_tie.py c15 [cases] [seed]
     faults = len(sys.argv) > 1 and sys.argv[1] == "faults"    # ogginject_tie.py faults [layouts per codec] [seed]
-    if c15 or faults:
+    loadf = len(sys.argv) > 1 and sys.argv[1] == "load"       # ogginject_tie.py load [files per codec] [seed]
+    if c15 or faults or loadf:
         sys.argv.pop(1)
     if len(sys.argv) > 1:
-        os.environ["VERIF_OGGAPI_CASES" if c15 else "VERIF_OGGFAULT_CASES" if faults else "VERIF_OGGINJECT_CASES"] = sys.argv[1]
+        os.environ["VERIF_OGGAPI_CASES" if c15 else "VERIF_OGGFAULT_CASES" if faults else "VERIF_OGGLOAD_CASES" if loadf else "VERIF_OGGINJECT_CASES"] = sys.argv[1]
     ctx = _Ctx(int(sys.argv[2]) if len(sys.argv) > 2 else 1)
     only = sys.argv[3].split(",") if len(sys.argv) > 3 else None
-    ncases = run_c15(ctx) if c15 else run_faults(ctx) if faults else run(ctx, only)
+    ncases = run_c15(ctx) if c15 else run_faults(ctx) if faults else run_load_faults(ctx) if loadf else run(ctx, only)
     print("cases", ncases, "traces", ctx.traces_validated, "disagreements", len(ctx.disagreements), "violations", len(ctx.violations))
     for k, v in sorted(ctx.hist.items()):
         print("  ", k, v)
